@@ -530,6 +530,47 @@ func c03Live(c *Ctx) {
 			first = lc
 		}
 	}
+	// the scope of a running function carries the compiled template (MyFunction), whose own snapshot was taken
+	// where the form was compiled: it may be consulted only after the closure's captured scopes and parent chain
+	{
+		capOf := func(call *ssa.Call) (bool, bool) {
+			if len(call.Call.Args) < 5 {
+				return false, false
+			}
+			k, ok := call.Call.Args[4].(*ssa.Const)
+			if !ok || k.Value == nil {
+				return false, false
+			}
+			return k.Value.String() == "true", true
+		}
+		v, known := capOf(first)
+		c.check(known && !v, R, "Zlisp.LexicalLookupSymbol", "live scopes first, without the template's snapshot", first.Pos(),
+			"the first look-up searches the live scopes only (checkCaptures is false)",
+			"the first look-up on the live stack also consults the snapshot of the compiled template carried by the function scope: for code compiled at top level that snapshot is the global scope, so a global shadows a captured variable of the same name, for reads and for set")
+		chain := []*ssa.Function{c.fn("SexpFunction.LookupSymbolInParentChainOfClosures"), c.fn("SexpFunction.ClosingLookupSymbolUntilFunc")}
+		for _, lc := range liveCalls {
+			if lc == first {
+				continue
+			}
+			if v, known := capOf(lc); known && v {
+				// must come after the closure-chain look-ups
+				after := false
+				for _, g := range chain {
+					if g == nil {
+						continue
+					}
+					for _, ci := range callsOf(lex, g) {
+						if blockReaches(ci.Block(), lc.Block()) && !blockReaches(lc.Block(), ci.Block()) {
+							after = true
+						}
+					}
+				}
+				c.check(after, R, "Zlisp.LexicalLookupSymbol", "template snapshot consulted last", lc.Pos(),
+					"the look-up that also consults the template's snapshot runs after the captured scopes and the parent chain",
+					"the template's compile-time snapshot is consulted before the closure's own captured scopes")
+			}
+		}
+	}
 	okFirst := true
 	eachInstr(lex, func(b *ssa.BasicBlock, i int, in ssa.Instruction) {
 		ci, ok := in.(ssa.CallInstruction)
